@@ -211,7 +211,7 @@ func init() {
 				runC03Like(rcx, "C01", true)
 			}
 		},
-		Quick: 48000, Thorough: 900000, QuickSecs: 60, ThorSecs: 1500,
+		Quick: 48000, Thorough: 3000000, QuickSecs: 60, ThorSecs: 1500,
 		Rule:  fmt.Sprintf("three sub-engines in rotation. (a) raw peer -> real server: requests of 26 T-types encoded by the independent codec with boundary-biased field values (0, 1, 2^k+-1, max, NOFID/NoUID, names of 1/255/4000 bytes with NUL and high bytes, payloads 0/1/255/256/4096/60000 bytes), getattr/setattr masks walking through ALL 2^14 / 2^9 combinations as the run index advances; the backend's results are scripted with the same generators; oracle: backend arguments = request fields (modulo 07777 on permission fields), and the R-frame decoded by the independent codec = what the backend returned (Rreaddir cut to the whole entries within count). (b) real client -> fake server: 26 client operations; oracle: every T-frame parses exactly per the spec table, returned values = the nonce-derived full-range fields the fake server encoded. (c) closed loop real client <-> real server with extreme values (C03's oracle). The wire monitor checks size = frame length, type byte per spec table (%d types) and exact layout on every connection of every run of every engine. Types not reachable through the public API (Rauth; Rflush/Rxattrcreate on the client) are outside.", 65),
 		Assume: []string{"the independent codec (refcodec) was written from the 9P2000.L description and the gVisor extension layout; a disagreement is investigated against the spec text, not resolved in p9's favour"},
 		Real:   []string{"p9 encode/decode of all message types", "p9.Client", "p9.Server"},
